@@ -160,7 +160,7 @@ func properties() map[string]*PropertySpec {
 		Outside:   []string{"more than 3 connections / 2 requests each; more than 2^63 accepts", "the inductive step from an arbitrary counter value is replaced by 3 unrolled iterations under every spawn-order schedule (which is what separates the per-iteration copy from the loop variable)"},
 		Harnesses: []HarnessSpec{
 			nat("H_C09_step", "step", "inductive step: any connection id n in 1..2^63-1 and any request number k >= 1 (all 64-bit values)", ""),
-			eng("H_C09_ids", "ids", "1..2 connections x 1..2 requests, every child-first/spawner-first choice at each go statement", "quick"),
+			eng("H_C09_ids", "ids", "1..2 connections x 1..2 requests, every child-first/spawner-first choice at each go statement", ""),
 			eng("H_C09_ids3", "ids", "1..3 connections x 1..2 requests; child-first/spawner-first explored for the connection goroutines only", ""),
 		}})
 	add(&PropertySpec{ID: "C11",
@@ -190,7 +190,7 @@ func properties() map[string]*PropertySpec {
 		Functions: "(*Directory).handleBind closure, (*Entry).GetAttributeValues, (*Request).GetSimpleBindMessage, NewBindResponse, SetResultCode, (*ResponseWriter).Write; the bind request is produced by the real newRequest",
 		Outside:   []string{"more than 2 (quick) / 3 (thorough) user entries, 2 attributes x 2 values each", "transport independence (plain / TLS / StartTLS) follows from C13 and C18: the handler never touches the connection", "controls attached to successful binds (SetControls) are not part of the statement"},
 		Harnesses: []HarnessSpec{
-			td("H_TD_C19_bind", "bind answered", "<= 2 users x <= 2 attributes x <= 2 values, all names/values/DNs/passwords unbounded symbolic strings (duplicate DNs, prefix DNs, missing or empty password attributes included), both AllowAnonymousBind settings", "quick"),
+			td("H_TD_C19_bind", "bind answered", "<= 2 users x <= 2 attributes x <= 2 values, all names/values/DNs/passwords unbounded symbolic strings (duplicate DNs, prefix DNs, missing or empty password attributes included), both AllowAnonymousBind settings", ""),
 			td("H_TD_C19_bind3", "bind answered", "<= 3 users (first with <= 2 attributes x <= 2 values, the others <= 1 x <= 1)", "thorough"),
 		}})
 	add(&PropertySpec{ID: "C20",
@@ -281,9 +281,9 @@ func properties() map[string]*PropertySpec {
 	}
 	add(&PropertySpec{ID: "C15",
 		Functions: "all functions reached by the C05-C13 workloads: (*Server).{Run,Stop,Ready,Router}, Run$1, (*conn).{serveRequests,readRequest,readPacket,initConn,close}, serveRequests$1, (*Mux).serve, (*ResponseWriter).Write, (*Request).StartTLS; testdirectory: handleBind/SearchUsers/Add/Modify/Delete closures, Set*/getters",
-		Outside:   []string{"the tracked locations are the fields of Server, Mux, conn and Directory (nested structs included, not followed through pointers into entries/slices); library objects (bufio, bytes.Buffer) are covered by C05's bufio queries", "generalisation is over all reorderings of the explored traces that keep each thread's observations, not over workloads beyond 2 connections x <= 4 requests / one served operation x one admin call", "WaitGroup reuse (connWg.Add concurrent with Wait from zero) is a documented-misuse pattern outside the field-level race model", "routes registered after Run"},
+		Outside:   []string{"the tracked locations are the fields of Server, Mux, conn and Directory (nested structs included, not followed through pointers into entries/slices); library objects (bufio, bytes.Buffer) are covered by C05's bufio queries", "generalisation is over all reorderings of the explored traces that keep each thread's observations, not over workloads beyond 2 connections x <= 4 requests / one served operation x one admin call", "routes registered after Run"},
 		Harnesses: []HarnessSpec{
-			{Name: "H_C15_server", Reach: []string{"workload"}, PO: poRaces, Bound: "2 connections, pipelined requests with concurrent writes, optional StartTLS upgrade, 2 Ready pollers, early and final Stop, spawn-order schedules; per trace every conflicting pair of tracked accesses is a race query (can the two clocks coincide?)"},
+			{Name: "H_C15_server", Reach: []string{"workload"}, PO: poRaces, Bound: "2 connections, pipelined requests with concurrent writes, optional StartTLS upgrade, 2 Ready pollers, early and final Stop, spawn-order schedules; per trace every conflicting pair of tracked accesses is a race query (can the two clocks coincide?); a WaitGroup's first Add from zero and its first Wait count as a conflicting pair (sync.WaitGroup's rule, as the race detector instruments it)"},
 			{Name: "H_C05_upgrade_inflight", Reach: []string{"upgrade inflight"}, PO: poC05,
 				Bound: "the connection's bufio.Writer objects (library state owned by gldap): StartTLS pipelined behind an in-flight handler; can two method calls (Write, Flush, Reset) on one object from different goroutines coincide?"},
 			{Name: "H_C05_shutdown_notice", Reach: []string{"shutdown notice"}, PO: poC05,
@@ -303,7 +303,7 @@ func properties() map[string]*PropertySpec {
 				Bound: "a stream of 0..2 arbitrary bytes followed by EOF (not a complete element): read error, no panic; the bytes are visible to gldap through bufio.Reader.Peek"},
 			{Name: "H_C02_readRequest_wide", Native: true, Tiers: "thorough", Reach: []string{"returned", "decoded"},
 				Bound: "as quick, with <= 2 controls per message and control values re-decoded at width 3",
-				Tweak: func(c *HarnessCfg, tier string) { c.DecodeWidths = "def=3"; c.MaxPaths = 600000 }},
+				Tweak: func(c *HarnessCfg, tier string) { c.DecodeWidths = "def=3"; c.MaxPaths = 100000 }},
 		}})
 	return m
 }
